@@ -289,7 +289,9 @@ def run_case(world, case):
     def hooked(c):
         return any(e[0] == "hook" and e[1] == c for e in w.log)
 
-    def wait_for(pred, deadline):
+    stall_where = []
+
+    def wait_for(pred, deadline, label="?"):
         while time.time() < deadline:
             if pred():
                 return True
@@ -297,6 +299,7 @@ def run_case(world, case):
         if pred():
             return True
         stalled[0] = True       # an expected reaction did not come within WAIT
+        stall_where.append("%s@%d" % (label, len(steps)))
         return False
 
     def got_reply(m):
@@ -324,12 +327,12 @@ def run_case(world, case):
         dl = t_end()
         for c in expect_ended:
             if c in accepted:
-                wait_for(lambda: hooked(c), dl)
-            wait_for(lambda: server_closed(c), dl)
+                wait_for(lambda: hooked(c), dl, 'hook')
+            wait_for(lambda: server_closed(c), dl, 'sockclosed')
             conn = w.conns.get(c)
             if conn is not None:
-                wait_for(lambda: len(conn.tracked_resources) == 0 and not conn.pyroInstances, dl)
-        wait_for(lambda: w.slots() - base_now() == expected_slots(), dl)
+                wait_for(lambda: len(conn.tracked_resources) == 0 and not conn.pyroInstances, dl, 'released')
+        wait_for(lambda: w.slots() - base_now() == expected_slots(), dl, 'slots')
         if w.stype == "multiplex":
             w.barrier()
 
@@ -363,31 +366,38 @@ def run_case(world, case):
     def expected_slots():
         return len(live())
 
+    watch = {"live": [], "kind": None}
+
     def idle_guard():
-        # thread server with COMMTIMEOUT: a connection idle for too long times out on its own -> timing-invalid run
+        # thread server with COMMTIMEOUT: a connection idle for too long times out on its own -> timing-invalid run.
+        # Judged on the connections that were live when the previous event STARTED (one that died of idleness during a
+        # slow step is no longer live afterwards), except after a timeout event, which ends them on purpose.
         nonlocal valid
         if w.timeout and w.stype == "thread":
             now = time.time()
-            for c in live():
+            prev = watch["live"] if watch["kind"] != "timeout" else []
+            for c in set(live()) | set(x for x in prev if x not in ended_client):
                 if now - last_act.get(c, now) > 0.55 * COMMTIMEOUT:
                     valid = False
 
     for ev in case["events"]:
         kind = ev[0]
         idle_guard()
+        watch["live"], watch["kind"] = live(), kind
         if kind == "connect":
             c, ok = ev[1], ev[2]
             gated = len(ev) > 3 and ev[3] == "gated" and w.stype == "thread"
+            if gated:
+                GATE.handed.clear()      # before the TCP connect: the accept loop dispatches on accept, not on the CONNECT message
             cl = rd.RawClient(w.srv.port, timeout=WAIT)
             clients[c] = cl
-            if gated:
-                GATE.handed.clear()
             cl.send(rd.connect_msg("P", handshake={"cid": c, "ok": bool(ok)}))
             if gated:
                 # the accept loop has dispatched the connection to a worker (Pool.process returned) while the worker that
                 # just went back to the pool is still parked; now let that worker continue
                 if not GATE.handed.wait(WAIT):
                     stalled[0] = True
+                    stall_where.append("gate-handed@%d" % len(steps))
                 GATE.release()
             if gated:
                 # wait for the handshake answer, but stop as soon as the worker the connection was given to is seen dead
@@ -444,6 +454,7 @@ def run_case(world, case):
                 ended_client.add(c)
                 if gated and not GATE.reached.wait(WAIT):
                     stalled[0] = True
+                    stall_where.append("gate-reached@%d" % len(steps))
             elif how == "reset":
                 cl.reset()
                 ended_client.add(c)
@@ -474,7 +485,7 @@ def run_case(world, case):
             dl = time.time() + COMMTIMEOUT + WAIT
             time.sleep(COMMTIMEOUT)
             for v in victims:
-                wait_for(lambda: server_closed(v), dl)
+                wait_for(lambda: server_closed(v), dl, 'timeout-close')
             time.sleep(0.03)
             settle(victims, expected_slots)
             snapshot("timeout")
@@ -503,7 +514,7 @@ def run_case(world, case):
         time.sleep(0.002)
     td = snapshot("teardown")
     return {"steps": steps[:-2], "probe": pre_teardown, "probes": {str(k): v for k, v in probes.items()}, "still_open": still,
-            "teardown": td, "valid": valid, "stalled": stalled[0], "accepted": sorted(accepted),
+            "teardown": td, "valid": valid, "stalled": stalled[0], "stall_where": stall_where, "accepted": sorted(accepted),
             "loop_alive": w.srv.loop_alive()}
 
 
